@@ -1164,6 +1164,13 @@ def run_program(job):
         for v in (bias_vars(n) or []):
             if v in ext_v and created[v] < ci and any(ci < sidx < di for sidx in step_cmds):
                 tainted.add(v)
+    # Legitimate memory, too: hideJacobian is an option of an ABF bias that changes what its VARIABLE reports as total force (the
+    # Jacobian term is left out); another ABF bias on the same variable collected its samples accordingly while the first one lived
+    for (n, ci, di) in deaths:
+        if n.startswith(("babfhj", "babfhk")) and any(ci < sidx < di for sidx in step_cmds):
+            for v in (bias_vars(n) or []):
+                if any(b.startswith("babf") and v in (bias_vars(b) or []) for b in survivors_b):
+                    tainted.add(v)
     if tainted:
         bump("programs_with_extended_coordinate_moved_by_a_deleted_bias")
     if tfmode == "prev":
